@@ -6,8 +6,10 @@ from ..world import Violation, HarnessError
 from . import cropgen as G
 from .crop import xyz_site
 
-KINDS = [("scalar", 4), ("tuple2", 3), ("tuple3", 1), ("array", 1), ("str", 1), ("int", 1)]
-NOUT = {"tuple2": 2, "tuple3": 3}
+KINDS = [("scalar", 4), ("tuple2", 3), ("tuple3", 1), ("array", 1), ("str", 1), ("int", 1),
+         ("ndarray", 1), ("ndarray2d", 1), ("intarray", 1)]
+# split=True separates along the first axis of each result: tuple entries, array rows
+NOUT = {"tuple2": 2, "tuple3": 3, "ndarray": 3, "ndarray2d": 3, "intarray": 3}
 
 
 def gen_strategy(t, label="strategy"):
